@@ -1,0 +1,66 @@
+//go:build verif
+
+package lossy
+
+import "github.com/deepteams/webp/internal/bitio"
+
+// Verification hook (property C06, byte-level syntax model). Compiled only with
+// the build tag "verif"; it adds no behaviour of its own.
+
+// VerifTokenFrameBytes runs the encoder half of VerifTokenFrame (mbInfo filled
+// from the given macroblocks, the real token pass rerecordAllTokens with the
+// default probabilities, EmitTokens into a real BoolWriter) and returns the
+// bytes of the token partition.
+func VerifTokenFrameBytes(mbW, mbH int, mbs []VerifMBIn) []byte {
+	n := mbW * mbH
+	enc := &VP8Encoder{mbW: mbW, mbH: mbH}
+	ResetProba(&enc.proba)
+	enc.mbInfo = make([]MBEncInfo, n)
+	enc.topNz = make([]uint32, mbW)
+	enc.topNzDC = make([]uint8, mbW)
+	enc.tokens.Init(n)
+	numSkip := 0
+	for i := 0; i < n; i++ {
+		info := &enc.mbInfo[i]
+		in := &mbs[i]
+		info.Coeffs = in.Levels
+		first := 0
+		if in.IsI4 {
+			info.MBType = 1
+		} else {
+			first = 1
+		}
+		var nzY, nzUV uint32
+		for b := 0; b < 16; b++ {
+			c := verifZigzagCount(info.Coeffs[b*16:b*16+16], first)
+			info.NzY[b] = uint8(c)
+			if c > 0 {
+				nzY |= 1 << uint(b)
+			}
+		}
+		for b := 0; b < 8; b++ {
+			c := verifZigzagCount(info.Coeffs[(16+b)*16:(16+b)*16+16], 0)
+			info.NzUV[b] = uint8(c)
+			if c > 0 {
+				nzUV |= 1 << uint(b)
+			}
+		}
+		if !in.IsI4 {
+			c := verifZigzagCount(info.Coeffs[384:400], 0)
+			info.NzDC = uint8(c)
+			if c > 0 {
+				nzY |= 1 << 24
+			}
+		}
+		info.NonZeroY, info.NonZeroUV = nzY, nzUV
+		info.Skip = (info.NonZeroY == 0 && info.NonZeroUV == 0)
+		if info.Skip {
+			numSkip++
+		}
+	}
+	enc.numSkip = numSkip
+	enc.rerecordAllTokens()
+	bw := bitio.NewBoolWriter(1024)
+	enc.tokens.EmitTokens(bw)
+	return append([]byte(nil), bw.Finish()...)
+}
